@@ -12,55 +12,6 @@ namespace Cxx
 
 open Py (ideal)
 
-/-! ### arrays of scalars: what the parser keeps and what the getter reads -/
-
-/-- the first `k` scalars of `w'` bits of a byte string -/
-def vals (e : Endian) (w' : Nat) : Nat → Bytes → List Value
-  | 0, _ => []
-  | k + 1, bs => .int (rdInt e (bs.take (w' / 8))) :: vals e w' k (bs.drop (w' / 8))
-
-/-- the element parser of a scalar array (reference, struct parser and getter alike) -/
-def scalarEl (e : Endian) (w' : Nat) : Bytes → Dec (Value × Bytes) :=
-  fun bs => (getUint e w' bs).bind fun (v, r) => .ok (.int v, r)
-
-theorem rawRead_eq (e : Endian) (w : Nat) (bs : Bytes) : rawRead e w bs = getUint e w bs := by
-  unfold rawRead
-  split
-  · rename_i h; simp [getUint, h]
-  · rfl
-
-theorem getUint_eq (e : Endian) (w' : Nat) (bs : Bytes) (h : w' / 8 ≤ bs.length) :
-    getUint e w' bs = .ok (rdInt e (bs.take (w' / 8)), bs.drop (w' / 8)) := by
-  unfold getUint
-  have : ¬ bs.length < w' / 8 := by omega
-  simp only [this, ↓reduceIte]
-  cases e <;> rfl
-
-theorem decRepeat_vals (e : Endian) (w' : Nat) :
-    ∀ (k : Nat) (bs : Bytes), k * (w' / 8) ≤ bs.length →
-      decRepeat (scalarEl e w') k bs = .ok (vals e w' k bs, bs.drop (k * (w' / 8)))
-  | 0, bs, _ => by simp [decRepeat, vals]
-  | k + 1, bs, h => by
-    have e1 : (k + 1) * (w' / 8) = k * (w' / 8) + w' / 8 := by rw [Nat.add_mul]; omega
-    have hw : w' / 8 ≤ bs.length := by omega
-    have hel : scalarEl e w' bs = .ok (.int (rdInt e (bs.take (w' / 8))), bs.drop (w' / 8)) := by
-      simp only [scalarEl, getUint_eq e w' bs hw, Outcome.bind]
-    have ih := decRepeat_vals e w' k (bs.drop (w' / 8)) (by rw [List.length_drop]; omega)
-    simp only [decRepeat, hel, Outcome.bind, ih, vals, Outcome.ok.injEq, Prod.mk.injEq, true_and, List.drop_drop]
-    congr 1
-    omega
-
-theorem vals_take (e : Endian) (w' : Nat) :
-    ∀ (k : Nat) (bs : Bytes) (m : Nat), k * (w' / 8) ≤ m → vals e w' k (bs.take m) = vals e w' k bs
-  | 0, _, _, _ => rfl
-  | k + 1, bs, m, h => by
-    have e1 : (k + 1) * (w' / 8) = k * (w' / 8) + w' / 8 := by rw [Nat.add_mul]; omega
-    simp only [vals]
-    rw [List.take_take, Nat.min_eq_left (by omega)]
-    congr 1
-    rw [List.drop_take]
-    exact vals_take e w' k (bs.drop (w' / 8)) (m - w' / 8) (by omega)
-
 /-- the lenient loop of a counted getter reads exactly `n` elements when the slice holds them -/
 theorem lenientRaw_some (e : Endian) (w' : Nat) (hw : 0 < w' / 8) :
     ∀ (n fuel : Nat) (bs : Bytes), n * (w' / 8) ≤ bs.length → n < fuel →
@@ -158,14 +109,6 @@ theorem RefV.bind {p : Dec ((DState × Option Hazard) × Bytes)} {q : Dec (DStat
 
 theorem RefV.err_left (e : DecErr) (q : Dec (DState × Bytes)) (hq : ∀ a, q ≠ .ok a) : RefV (.err e) q :=
   ⟨fun st r => ⟨fun h => (by cases h), fun h => absurd h (hq _)⟩, fun _ _ _ h => (by cases h), fun _ h => (by cases h)⟩
-
-theorem vals_length (e : Endian) (w' : Nat) : ∀ (k : Nat) (bs : Bytes), (vals e w' k bs).length = k
-  | 0, _ => rfl
-  | k + 1, bs => by simp [vals, vals_length e w' k]
-
-theorem decTy_scalar (c : Cfg) (w' : Nat) : Pdlv.decTy { e := c.e, mode := .ideal } (.scalar w') = scalarEl c.e w' := by
-  funext bs
-  simp [Pdlv.decTy, scalarEl]
 
 theorem refv_ok (s : DState) (r : Bytes) : RefV (.ok ((s, none), r)) (.ok (s, r)) :=
   ⟨fun st r' => by simp, fun st hz r' hh => by simp at hh, fun hz hh => (by cases hh)⟩
@@ -276,6 +219,47 @@ theorem array_refv (c : Cfg) (all rest : Items) (id : String) (w' w : Nat) (shap
         decRepeat_vals c.e w' (bs.length / (w' / 8)) bs (Nat.le_of_eq hdiv), hdiv, List.drop_length]
       exact refv_ok _ _
 
+/-- the same array in a padded slot it fits -/
+theorem padded_scalar_refv (c : Cfg) (all rest : Items) (id : String) (w' n p : Nat) (hnp : n * (w' / 8) ≤ p)
+    (hall : ModFree all) (hid : id ≠ "_payload_") (bs : Bytes) (st : DState) :
+    RefV (viewItem c all rest (.array id (.scalar w') (.static (w' / 8)) (.static n) (some p)) bs (st, none))
+      (Pdlv.decItem (ideal c) (.array id (.scalar w') (.static (w' / 8)) (.static n) (some p)) bs st) := by
+  have hk : arrayKeysOk (.static (w' / 8)) (.static n) (st.ctx.get (.count id)) (st.ctx.get (.size id)) (st.ctx.get (.esize id)) = true := rfl
+  simp only [viewItem, Pdlv.decItem, afterPad, withPad, ideal, decTy_scalar, subModifier_id all hall id hid, hk, Bool.not_true,
+    Bool.false_eq_true, ↓reduceIte, arrayLite, decArray]
+  by_cases hl : bs.length < n * (w' / 8)
+  · have hlp : bs.length < p := by omega
+    simp only [hl, hlp, ↓reduceIte, Outcome.bind]
+    exact refv_err _ _
+  · have hle : n * (w' / 8) ≤ bs.length := by omega
+    have hg : getter c (.scalar w') (.static n) (st.ctx.get (.count id)) (bs.take (n * (w' / 8))) = .ok (vals c.e w' n bs) := by
+      simp only [getter]
+      have : (fun bs => (rawRead c.e w' bs).bind fun x => Outcome.ok (Value.int x.1, x.2)) = scalarEl c.e w' := by
+        funext b; simp [rawRead_eq, scalarEl]
+      rw [this, decRepeat_vals c.e w' n _ (by rw [List.length_take]; omega)]
+      simp only [Outcome.bind, vals_take c.e w' n bs _ (Nat.le_refl _)]
+    simp only [hl, ↓reduceIte, Outcome.bind, List.length_drop, hg]
+    have hcons : bs.length - (bs.length - n * (w' / 8)) = n * (w' / 8) := by omega
+    rw [hcons]
+    by_cases hlp : bs.length < p
+    · have h1 : n * (w' / 8) < p := by omega
+      have h2 : bs.length - n * (w' / 8) < p - n * (w' / 8) := by omega
+      simp only [h1, h2, hlp, ↓reduceIte]
+      exact refv_err _ _
+    · have htk : n * (w' / 8) ≤ (bs.take p).length := by rw [List.length_take]; omega
+      have hnl : ¬ (bs.take p).length < n * (w' / 8) := by omega
+      simp only [hlp, ↓reduceIte, hnl, decRepeat_vals c.e w' n (bs.take p) htk, unwrapArr, vals_length,
+        vals_take c.e w' n bs p hnp]
+      by_cases h1 : n * (w' / 8) < p
+      · have h2 : ¬ (bs.length - n * (w' / 8) < p - n * (w' / 8)) := by omega
+        simp only [h1, h2, ↓reduceIte, List.drop_drop]
+        have : n * (w' / 8) + (p - n * (w' / 8)) = p := by omega
+        rw [this]
+        exact refv_ok _ _
+      · have : n * (w' / 8) = p := by omega
+        simp only [this, Nat.lt_irrefl, ↓reduceIte]
+        exact refv_ok _ _
+
 /-! ### fields, field lists, views -/
 
 theorem item_refv (c : Cfg) (all rest : Items) (hall : ModFree all) : ∀ (i : Item), vwfItem all rest i = true → ∀ (bs : Bytes) (st : DState),
@@ -297,9 +281,24 @@ theorem item_refv (c : Cfg) (all rest : Items) (hall : ModFree all) : ∀ (i : I
     simp only [viewItem]
     exact RefV.of_refines (item_ref c all rest hall (.payload mode) hw bs st hb)
   | .array id elem ew shape pad, hw, bs, st, hb => by
-    simp only [vwfItem, Bool.and_eq_true, Option.isNone_iff_eq_none, bne_iff_ne, ne_eq] at hw
+    simp only [vwfItem, Bool.and_eq_true, bne_iff_ne, ne_eq] at hw
     obtain ⟨⟨hpad, hidp⟩, hel⟩ := hw
-    subst hpad
+    cases pad with
+    | some p =>
+      cases elem with
+      | scalar w' =>
+        cases ew with
+        | static w =>
+          cases shape with
+          | static n =>
+            simp only [padOk, Bool.and_eq_true, beq_iff_eq, decide_eq_true_eq] at hpad
+            obtain ⟨hw8, hnp⟩ := hpad
+            subst hw8
+            exact padded_scalar_refv c all rest id w' n p hnp hall hidp bs st
+          | _ => simp [padOk] at hpad
+        | _ => simp [padOk] at hpad
+      | _ => simp [padOk] at hpad
+    | none =>
     cases elem with
     | scalar w' =>
       cases ew with
